@@ -2,7 +2,7 @@
 From Coq Require Import Permutation.
 From CR Require Import Base Atomic Machine LinksFacts HeapFacts TraceFacts TraceTotal Local StackBound
   Termination Perm StdRc StdRefine Tokens InvDef InvLemmas ActBase ActHandles ActAdopt ActMove ActConsume
-  StepFrames StepPanic Purge GroupOps DropDec Group DropLast StepInv RunInv Consequences Common.
+  StepFrames StepPanic Purge GroupOps DropDec Group DropLast StepInv RunInv Consequences PidInv Common.
 Local Open Scope N_scope.
 
 (** try_unwrap and make_mut (all three branches), on any object of any adoption
@@ -46,3 +46,12 @@ Theorem C12_later_histories :
   (forallb completed (snd (run_history fuel s h)) = true -> Inv (fst (run_history fuel s h)) []).
 Proof. exact (fun fuel h => run_history_inv fuel h). Qed.
 Print Assumptions C12_later_histories.
+
+(** values are moved out or cloned exactly once: the payload identifiers of all
+    values not yet destroyed stay pairwise distinct and disjoint from the
+    destroyed ones, through try_unwrap (value moved to the caller), the steal
+    branch (moved to a new allocation) and the clone branch (a fresh value) *)
+Theorem C12_values_moved_or_cloned_exactly_once :
+  forall pri c c', PidInv (st c) (stack c) -> step pri c = Running c' -> PidInv (st c') (stack c').
+Proof. exact step_pid. Qed.
+Print Assumptions C12_values_moved_or_cloned_exactly_once.
